@@ -615,6 +615,7 @@ static void run_transport(vh_rng_t *rng)
 #include "sim_prov.h"
 #include "sim_addr.h"
 #include "sim_health.h"
+#include "sim_cookie.h"
 
 static int profile_run(const char *profile, vh_rng_t *rng, uint64_t idx)
 {
@@ -626,6 +627,10 @@ static int profile_run(const char *profile, vh_rng_t *rng, uint64_t idx)
     gen_hostile(rng);
     run_generic(rng);
     hostile_fingerprint();
+    return 1;
+  }
+  if (!strcmp(profile, "cookie")) {
+    run_cookie(rng);
     return 1;
   }
   if (!strcmp(profile, "failover")) {
